@@ -119,6 +119,9 @@ type hist struct {
 	now     time.Time
 	dead    bool
 	pubAddr map[string]string // pubkey bytes -> address
+	// hand-overs proposed by the latest gov/acl change: (parameter, previous owner, next owner)
+	handover [][3]string
+	forced   []txSpec
 }
 
 func (h *hist) modAddr(name string) sdk.Address { return authTypes.NewModuleAddress(name) }
@@ -419,8 +422,27 @@ func (h *hist) validator(a sdk.Address) (valView, bool) {
 	return valView{int(v.Status), v.Jailed, v.StakedTokens.Int64()}, true
 }
 
+var allParamNames = []string{"auth/MaxMemoCharacters", "auth/TxSigLimit", "auth/FeeMultipliers", "gov/daoOwner", "gov/acl", "gov/upgrade",
+	"pos/UnstakingTime", "pos/MaxValidators", "pos/StakeDenom", "pos/StakeMinimum", "pos/ProposerRewardPercentage", "pos/MaxEvidenceAge",
+	"pos/SignedBlocksWindow", "pos/MinSignedPerWindow", "pos/DowntimeJailDuration", "pos/SlashFractionDoubleSign", "pos/SlashFractionDowntime"}
+
+// the generator's key for an address (generation only), or the fallback
+func (h *hist) keyOf(a sdk.Address, fallback key) key {
+	for _, k := range h.keys {
+		if k.addr.Equals(a) {
+			return k
+		}
+	}
+	return fallback
+}
+
 func (h *hist) genTx(pp posTypes.Params, govOwner map[string]key, daoOwner key, paramPool []paramChoice) txSpec {
 	r := h.r
+	if len(h.forced) > 0 {
+		t := h.forced[0]
+		h.forced = h.forced[1:]
+		return t
+	}
 	k := h.pick()
 	t := txSpec{signer: k, attached: &k, fee: 0, wrongSub: -1}
 	minStake := pp.StakeMinimum
@@ -491,6 +513,9 @@ func (h *hist) genTx(pp posTypes.Params, govOwner map[string]key, daoOwner key, 
 		t.spec = "unjail:" + hx(k.addr)
 	case c < 16: // send
 		to := h.pick()
+		if r.Chance(1, 12) || (h.height <= 2 && r.Chance(1, 2)) { // a module account's raw address as the recipient (early on it may not have been materialised yet)
+			to = key{addr: h.modAddr([]string{auth.FeeCollectorName, posTypes.ModuleName, posTypes.StakedPoolName, govTypes.DAOAccountName}[r.Intn(4)])}
+		}
 		bal := h.balance(k.addr)
 		var amt int64
 		switch r.Intn(5) {
@@ -509,11 +534,14 @@ func (h *hist) genTx(pp posTypes.Params, govOwner map[string]key, daoOwner key, 
 		t.msg = posTypes.MsgSend{FromAddress: k.addr, ToAddress: to.addr, Amount: sdk.NewInt(amt)}
 		t.spec = fmt.Sprintf("send:%s:%s:%d", hx(k.addr), hx(to.addr), amt)
 	case c < 18: // dao transfer / burn
-		from := daoOwner
+		from := h.keyOf(h.app.GK.GetDAOOwner(sdk.NewContext(h.app.Store(), abci.Header{}, false, nil)), daoOwner)
 		if r.Chance(1, 4) {
 			from = k
 		}
 		to := h.pick()
+		if r.Chance(1, 8) { // the DAO pays itself: must be a no-op on its balance
+			to = key{addr: h.modAddr(govTypes.DAOAccountName)}
+		}
 		daoBal := h.balance(h.modAddr(govTypes.DAOAccountName))
 		amt := int64(1 + r.Intn(100000))
 		if r.Chance(1, 5) {
@@ -537,15 +565,31 @@ func (h *hist) genTx(pp posTypes.Params, govOwner map[string]key, daoOwner key, 
 		t.fee = govTypes.GovFeeMap[govTypes.MsgDAOTransferName]
 	default: // change param
 		pc := paramPool[r.Intn(len(paramPool))]
-		from := govOwner[pc.key]
+		// the owner as of the last commit (inside a block this may already be the PREVIOUS owner: such a
+		// message must be refused)
+		from := h.keyOf(h.app.GK.GetACL(sdk.NewContext(h.app.Store(), abci.Header{}, false, nil)).GetOwner(pc.key), govOwner[pc.key])
 		if r.Chance(1, 3) {
 			from = k
 		}
 		val, model := pc.gen(h)
+		if r.Chance(1, 10) { // a key nobody owns (not in the ACL): refused from everybody
+			from = k
+			pc.key = []string{"gov/acl/x", "pos/MaxValidators/x", "pos/Nope", "auth/acl"}[r.Intn(4)]
+			grab := govTypes.ACL{}
+			for _, p := range allParamNames {
+				grab.SetOwner(p, from.addr)
+			}
+			val, _ = h.app.Cdc.MarshalJSON(grab)
+			model = fmt.Sprintf("raw::%s:1", hx(val))
+		}
 		t.signer, t.attached = from, &from
 		t.msg = govTypes.MsgChangeParam{FromAddress: from.addr, ParamKey: pc.key, ParamVal: val}
 		t.spec = fmt.Sprintf("param:%s:%s:%s", hx(from.addr), hx([]byte(pc.key)), model)
 		t.fee = govTypes.GovFeeMap[govTypes.MsgChangeParamName]
+	}
+	// the fee the current multipliers ask for (generation only; the variations below move away from it)
+	if t.msg != nil {
+		t.fee = h.app.AK.GetParams(sdk.NewContext(h.app.Store(), abci.Header{}, false, nil)).FeeMultiplier.GetFee(t.msg).Int64()
 	}
 	// fee / signature variations
 	switch r.Intn(24) {
@@ -712,6 +756,9 @@ func runHistory(r *rng.R, id, maxBlocks int, wo, wi *bufio.Writer) {
 		default:
 			bal = 1000000*int64(1+r.Intn(8)) + int64(r.Intn(500000))
 		}
+		if i < 3 && r.Chance(4, 5) { // the governance owners come from the first three keys: mostly able to pay the fee
+			bal = 1000000*int64(2+r.Intn(8)) + int64(r.Intn(500000))
+		}
 		if r.Chance(1, 8) && i >= nv {
 			continue // no account at all
 		}
@@ -821,6 +868,32 @@ func runHistory(r *rng.R, id, maxBlocks int, wo, wi *bufio.Writer) {
 			o := h.keys[h.r.Intn(3)]
 			js, _ := h.app.Cdc.MarshalJSON(o.addr)
 			return js, fmt.Sprintf("addr:%s:%s:1", hx(o.addr), hx(js))
+		}},
+		{"gov/acl", func(h *hist) ([]byte, string) { // hand some parameters over to other owners, sometimes drop one
+			cur := h.app.GK.GetACL(sdk.NewContext(h.app.Store(), abci.Header{}, false, nil))
+			next := govTypes.ACL{}
+			h.handover = nil
+			drop := -1
+			if h.r.Chance(1, 6) {
+				drop = h.r.Intn(len(cur) + 1)
+			}
+			var parts []string
+			for i, p := range cur {
+				if i == drop && p.Key != "gov/acl" {
+					continue
+				}
+				a := p.Addr
+				if h.r.Chance(1, 3) {
+					a = h.keys[h.r.Intn(3)].addr
+				}
+				if !a.Equals(p.Addr) {
+					h.handover = append(h.handover, [3]string{p.Key, string(p.Addr), string(a)})
+				}
+				next = append(next, govTypes.ACLPair{Key: p.Key, Addr: a})
+				parts = append(parts, hx([]byte(p.Key))+"="+hx(a))
+			}
+			js, _ := h.app.Cdc.MarshalJSON(next)
+			return js, fmt.Sprintf("acl:%s:%s:1", strings.Join(parts, ";"), hx(js))
 		}},
 		{"pos/MaxValidators", func(h *hist) ([]byte, string) { // malformed value: accepted, nothing changes
 			js := []byte(`{"not":"a number"}`)
@@ -974,7 +1047,7 @@ func runHistory(r *rng.R, id, maxBlocks int, wo, wi *bufio.Writer) {
 		}
 		// ---- transactions
 		curPP := h.app.PK.GetParams(sdk.NewContext(h.app.Store(), hdr, false, nil))
-		for i := r.Intn(5); i > 0; i-- {
+		for i := r.Intn(5); i > 0 || len(h.forced) > 0; i-- {
 			t := h.genTx(curPP, govOwner, daoOwner, paramPool)
 			bz, op := h.buildTx(t)
 			res := h.app.DeliverTx(abci.RequestDeliverTx{Tx: bz})
@@ -983,6 +1056,32 @@ func runHistory(r *rng.R, id, maxBlocks int, wo, wi *bufio.Writer) {
 				rs = "err"
 			}
 			h.reqs = append(h.reqs, request{kind: "TX", tx: bz, resA: deliverString(res)})
+			stats[fmt.Sprintf("tx/%s/%s:%d", strings.SplitN(t.spec, ":", 2)[0], res.Codespace, res.Code)]++
+			// right after an accepted hand-over, in the same block: the previous owner must be refused, the next one accepted
+			if res.Code == 0 && strings.Contains(t.spec, ":acl:") && len(h.handover) > 0 && r.Chance(4, 5) {
+				var cands []paramChoice
+				var who [][3]string
+				for _, ho := range h.handover {
+					for _, pc := range paramPool {
+						if pc.key == ho[0] {
+							cands = append(cands, pc)
+							who = append(who, ho)
+						}
+					}
+				}
+				if len(cands) > 0 {
+					j := r.Intn(len(cands))
+					from := h.keyOf(sdk.Address(who[j][1+r.Intn(2)]), h.keys[0])
+					val, model := cands[j].gen(h)
+					ft := txSpec{signer: from, attached: &from, wrongSub: -1}
+					ft.msg = govTypes.MsgChangeParam{FromAddress: from.addr, ParamKey: cands[j].key, ParamVal: val}
+					ft.spec = fmt.Sprintf("param:%s:%s:%s", hx(from.addr), hx([]byte(cands[j].key)), model)
+					ft.fee = h.app.AK.GetParams(sdk.NewContext(h.app.Store(), abci.Header{}, false, nil)).FeeMultiplier.GetFee(ft.msg).Int64()
+					h.forced = append(h.forced, ft)
+					stats["tx/followup-after-handover"]++
+				}
+			}
+			h.handover = nil
 			h.emit(op, rs)
 		}
 		// ---- end block / commit
@@ -1012,8 +1111,22 @@ func runHistory(r *rng.R, id, maxBlocks int, wo, wi *bufio.Writer) {
 	// ---- C01: the same request sequence on other instances
 	if det != nil {
 		for _, variant := range []string{"fresh", "restart", "interleaved"} {
-			fmt.Fprintf(det, "%d %s %s\n", id, variant, h.replay(variant))
+			res, _ := h.replay(variant, nil, nil)
+			fmt.Fprintf(det, "%d %s %s\n", id, variant, res)
 		}
+		// with genesis consensus parameters (a block gas limit that binds, the allowed consensus key types): an
+		// uninterrupted instance against one that is stopped after some Commit and reopened
+		cp := &abci.ConsensusParams{Block: &abci.BlockParams{MaxBytes: 200000, MaxGas: []int64{60000, 200000, 500000}[r.Intn(3)]},
+			Validator: &abci.ValidatorParams{PubKeyTypes: []string{"ed25519"}}}
+		_, ref := h.replay("record", cp, nil)
+		for _, x := range ref {
+			if strings.HasPrefix(x, "code=12/") {
+				stats["det/block-gas-limit-hit"]++
+				break
+			}
+		}
+		res, _ := h.replay("restart", cp, ref)
+		fmt.Fprintf(det, "%d consensus-params-restart %s\n", id, res)
 	}
 }
 
@@ -1028,7 +1141,9 @@ func deliverString(r abci.ResponseDeliverTx) string {
 }
 
 // replay runs the recorded requests on another instance and reports the first consensus-relevant difference
-func (h *hist) replay(variant string) string {
+// replays the recorded requests on another instance; responses are compared with [ref] (the main run's when nil)
+func (h *hist) replay(variant string, cp *abci.ConsensusParams, ref []string) (string, []string) {
+	var got_all []string
 	db := dbm.NewMemDB()
 	app := simapp.New(db, "tcp://127.0.0.1:1", h.gen)
 	rr := rng.New(uint64(h.id)*7919 + uint64(len(variant)))
@@ -1077,7 +1192,9 @@ func (h *hist) replay(variant string) string {
 		switch q.kind {
 		case "INIT":
 			var res abci.ResponseInitChain
-			if try(func() { res = app.InitChain(abci.RequestInitChain{ChainId: simapp.ChainID, Time: time.Unix(1600000000, 0).UTC()}) }) {
+			if try(func() {
+				res = app.InitChain(abci.RequestInitChain{ChainId: simapp.ChainID, Time: time.Unix(1600000000, 0).UTC(), ConsensusParams: cp})
+			}) {
 				got = "ABORT"
 			} else {
 				got = updatesString(res.Validators)
@@ -1117,15 +1234,20 @@ func (h *hist) replay(variant string) string {
 				got = hx(res.Data)
 			}
 		}
-		if got != q.resA {
-			a, b := q.resA, got
+		got_all = append(got_all, got)
+		want := q.resA
+		if ref != nil && i < len(ref) {
+			want = ref[i]
+		}
+		if variant != "record" && got != want {
+			a, b := want, got
 			if len(a) > 160 {
 				a = a[:160]
 			}
 			if len(b) > 160 {
 				b = b[:160]
 			}
-			return fmt.Sprintf("DIVERGED op=%d kind=%s A=%s B=%s", i, q.kind, strings.ReplaceAll(a, " ", "_"), strings.ReplaceAll(b, " ", "_"))
+			return fmt.Sprintf("DIVERGED op=%d kind=%s A=%s B=%s", i, q.kind, strings.ReplaceAll(a, " ", "_"), strings.ReplaceAll(b, " ", "_")), got_all
 		}
 		if got == "ABORT" {
 			break
@@ -1134,11 +1256,11 @@ func (h *hist) replay(variant string) string {
 			// stop after this Commit and reopen from the database
 			app = simapp.New(db, "tcp://127.0.0.1:1", h.gen)
 			if app.LastBlockHeight() == 0 {
-				return fmt.Sprintf("DIVERGED op=%d kind=restart reopened at height 0", i)
+				return fmt.Sprintf("DIVERGED op=%d kind=restart reopened at height 0", i), got_all
 			}
 		}
 	}
-	return "same"
+	return "same", got_all
 }
 
 func copySet(m map[string]int64) map[string]int64 {
